@@ -77,7 +77,7 @@ def run(obs, scratch, scratch_repo, log):
         elif helper_fail:
             r.status = "undecided"
             r.reason = "verus: error outside the contracted functions: %s" % failed_fns
-        elif int(m.group(2)) > 0:
+        elif int(m.group(2)) > 0 and not (failed_fns and all(k in all_ob_fns for k in failed_fns)):
             r.status = "undecided"
             r.reason = "verus: unattributed errors"
         elif int(m.group(1)) == 0:
